@@ -12,69 +12,82 @@
 (* Level B: the mechanism behind line sizes as model.py has it - the size  *)
 (* stored in the file, the value set through the API, the memo of computed *)
 (* values, and the border allowance added when a size is computed.         *)
-(* Mode selects how Save writes sizes back: "separate" keeps stored size   *)
-(* and allowance apart (the design that satisfies the property), the Bug   *)
-(* modes are the defective variants of the pinned tree.                    *)
-(* Units: every size and allowance is in HALF points, because a border of  *)
-(* odd width contributes a fractional allowance (half its width) while     *)
-(* sizes are reported in whole points: the code stores set - floor(allow)  *)
-(* and reports floor(round(stored) + allow), round being half-to-even.     *)
-(* Mode "UnflooredAllowance" stores set - allow instead.                   *)
+(* Lines 1..NL lie next to each other on one axis (rows of a table, or its *)
+(* columns); EDGE e (0..NL) is the boundary after line e and before line   *)
+(* e+1.  A border lives on an edge and widens BOTH adjacent lines by half  *)
+(* its width; it can be drawn from either side: as the far side of line e  *)
+(* ("lo": bottom / right) or as the near side of line e+1 ("hi": top /     *)
+(* left).                                                                  *)
+(* Units: every size and width is in HALF points, because half of an odd   *)
+(* width is fractional while sizes are reported in whole points: the code  *)
+(* stores set - floor(allowance) and reports floor(round(stored) +         *)
+(* allowance), round being half-to-even.                                   *)
+(* Mode selects how Save writes sizes back and which memo entries a border *)
+(* drops: "separate" is the design that satisfies the property; the others *)
+(* are defective variants (those of the pinned tree, and seeded ones).     *)
 (***************************************************************************)
 EXTENDS Integers, Sequences, FiniteSets, TLC
-CONSTANTS Lines,      \* row and column identifiers
+CONSTANTS NL,         \* number of adjacent lines
           Sizes,      \* sizes that may be set (whole points = even numbers of half points)
-          Widths,     \* allowances of borders that may be drawn (half points = the border's width in points; 0 = no border)
+          Widths,     \* border widths that may be drawn (points = allowance in half points for each adjacent line; 0 = no border)
           Default,    \* default size (half points, even)
-          Mode,       \* "separate" | "SaveFromMemoOnly" | "AllowanceSavedBack" | "BorderDropsSetSize" | "UnflooredAllowance"
+          Mode,       \* "separate" | "SaveFromMemoOnly" | "AllowanceSavedBack" | "BorderDropsSetSize" | "UnflooredAllowance" | "ForgetWrongNeighbour"
           D
+Lines == 1..NL
+Edges == 0..NL
 VARIABLES stored,   \* Lines -> size in the file (0 = "use default")
           setv,     \* Lines -> size set through the API, or 0
           memo,     \* Lines -> memoised computed size, or 0
-          allow,    \* Lines -> border allowance currently applying
-          disk,     \* stored sizes + allowances of the saved file, or <<>>
+          width,    \* Edges -> width of the border on that edge
+          disk,     \* stored sizes + edge widths of the saved file, or <<>>
           before,   \* what was reported when the document was last saved
           hist
-vars == <<stored, setv, memo, allow, disk, before, hist>>
+vars == <<stored, setv, memo, width, disk, before, hist>>
 Ev(r) == hist' = Append(hist, r)
 
 FloorPt(x) == (x \div 2) * 2                                   \* whole points below x
 RoundPt(x) == IF x % 2 = 0 THEN x                                \* round to whole points, halves to the even one
               ELSE IF ((x - 1) \div 2) % 2 = 0 THEN x - 1 ELSE x + 1
+Allow(l) == width[l - 1] + width[l]                              \* half the width of each adjacent border, in half points
 Base(l) == IF stored[l] = 0 THEN Default ELSE stored[l]
-Computed(l) == FloorPt(RoundPt(Base(l)) + allow[l])
+Computed(l) == FloorPt(RoundPt(Base(l)) + Allow(l))
 Reported(l) == IF setv[l] # 0 THEN setv[l] ELSE IF memo[l] # 0 THEN memo[l] ELSE Computed(l)
 Obs == [l \in Lines |-> Reported(l)]
 
-SetSize(l, v) == /\ setv' = [setv EXCEPT ![l] = v] /\ UNCHANGED <<stored, memo, allow, disk, before>>
+SetSize(l, v) == /\ setv' = [setv EXCEPT ![l] = v] /\ UNCHANGED <<stored, memo, width, disk, before>>
                  /\ Ev([op |-> "set", l |-> l, v |-> v])
-Query(l) == /\ memo' = [memo EXCEPT ![l] = IF setv[l] # 0 THEN @ ELSE Computed(l)]
-            /\ UNCHANGED <<stored, setv, allow, disk, before>> /\ Ev([op |-> "query", l |-> l])
-Border(l, w) == /\ allow' = [allow EXCEPT ![l] = w]
-                /\ memo' = [memo EXCEPT ![l] = 0]                                   \* the code drops the memo entry
-                /\ setv' = IF Mode = "BorderDropsSetSize" THEN [setv EXCEPT ![l] = 0] ELSE setv
-                /\ UNCHANGED <<stored, disk, before>> /\ Ev([op |-> "border", l |-> l, w |-> w])
+Query(l) == /\ memo' = [memo EXCEPT ![l] = IF setv[l] # 0 \/ @ # 0 THEN @ ELSE Computed(l)]      \* a memoised value is returned as it is
+            /\ UNCHANGED <<stored, setv, width, disk, before>> /\ Ev([op |-> "query", l |-> l])
+\* the lines whose memoised size a border on edge e, drawn from side `from`, makes the code forget
+Forgotten(e, from) ==
+  IF Mode = "ForgetWrongNeighbour" /\ from = "lo" THEN {e, e - 1} \cap Lines      \* the far side of line e treated like its near side
+  ELSE {e, e + 1} \cap Lines
+Border(e, w, from) ==
+  /\ (from = "lo" => e >= 1) /\ (from = "hi" => e + 1 <= NL)
+  /\ width' = [width EXCEPT ![e] = w]
+  /\ memo' = [l \in Lines |-> IF l \in Forgotten(e, from) THEN 0 ELSE memo[l]]
+  /\ setv' = IF Mode = "BorderDropsSetSize" THEN [l \in Lines |-> IF l \in {e, e + 1} THEN 0 ELSE setv[l]] ELSE setv
+  /\ UNCHANGED <<stored, disk, before>> /\ Ev([op |-> "border", e |-> e, w |-> w, from |-> from])
 Saved(l) ==
-  CASE Mode = "separate"           -> IF setv[l] # 0 THEN setv[l] - FloorPt(allow[l]) ELSE stored[l]
-    [] Mode = "UnflooredAllowance" -> IF setv[l] # 0 THEN setv[l] - allow[l] ELSE stored[l]
-    [] Mode = "SaveFromMemoOnly"   -> IF setv[l] # 0 THEN setv[l] ELSE IF memo[l] # 0 THEN memo[l] ELSE 0
+  CASE Mode = "SaveFromMemoOnly"   -> IF setv[l] # 0 THEN setv[l] ELSE IF memo[l] # 0 THEN memo[l] ELSE 0
     [] Mode = "AllowanceSavedBack" -> IF setv[l] # 0 THEN setv[l] ELSE Computed(l)
-    [] OTHER                       -> IF setv[l] # 0 THEN setv[l] - FloorPt(allow[l]) ELSE stored[l]
-Save == /\ disk' = <<[l \in Lines |-> Saved(l)], allow>> /\ before' = Obs
-        /\ UNCHANGED <<stored, setv, memo, allow>> /\ Ev([op |-> "save"])
-Reopen == /\ disk # <<>> /\ stored' = disk[1] /\ allow' = disk[2]
+    [] Mode = "UnflooredAllowance" -> IF setv[l] # 0 THEN setv[l] - Allow(l) ELSE stored[l]
+    [] OTHER                       -> IF setv[l] # 0 THEN setv[l] - FloorPt(Allow(l)) ELSE stored[l]
+Save == /\ disk' = <<[l \in Lines |-> Saved(l)], width>> /\ before' = Obs
+        /\ UNCHANGED <<stored, setv, memo, width>> /\ Ev([op |-> "save"])
+Reopen == /\ disk # <<>> /\ stored' = disk[1] /\ width' = disk[2]
           /\ setv' = [l \in Lines |-> 0] /\ memo' = [l \in Lines |-> 0]
           /\ UNCHANGED <<disk, before>> /\ Ev([op |-> "reopen"])
 
 Init == /\ stored \in [Lines -> {0} \cup Sizes] /\ setv = [l \in Lines |-> 0] /\ memo = [l \in Lines |-> 0]
-        /\ allow = [l \in Lines |-> 0] /\ disk = <<>> /\ before = <<>> /\ hist = <<>>
+        /\ width = [e \in Edges |-> 0] /\ disk = <<>> /\ before = <<>> /\ hist = <<>>
 Next == \/ \E l \in Lines, v \in Sizes : SetSize(l, v)
         \/ \E l \in Lines : Query(l)
-        \/ \E l \in Lines, w \in Widths : Border(l, w)
+        \/ \E e \in Edges, w \in Widths, from \in {"lo", "hi"} : Border(e, w, from)
         \/ Save \/ Reopen
 Spec == Init /\ [][Next]_vars
 Depth == TLCGet("level") <= D
-NoHist == <<stored, setv, memo, allow, disk, before>>
+NoHist == <<stored, setv, memo, width, disk, before>>
 
 \* Level A on the mechanism: what is reported right after a reopen is what was reported when saving -
 \* whether sizes were set or came from the file, queried or not, with or without borders; since Reopen may
